@@ -35,7 +35,18 @@ limit the *analysis* recursion (term substitution, fixpoint rounds), never a run
 * R6  (no writer of module/class-level objects; memoised results immutable): 1 (shared objects found from the syntax of
       module/class-level initialisers, decorators) + 3/4 (the same may-alias fixpoint as R1 with those objects as sources,
       `deep_attrs` field sensitivity) + structural classification of the inlined (3) return expression of a memoised
-      function.
+      function.  A memoised function (lru_cache / cache) whose result is not evidently a scalar is a lazily built
+      module-level object and is treated like one: 1 (its resolved call sites; any other reference to it; baseline
+      vocabulary: which functions are entry points of the package) + 3/4 (the same may-alias fixpoint with the calls of
+      the memoised function as sources: locals through reaching definitions, parameters of package callees, returns of
+      package helpers, fields).  Violated: an alias of the cached object is modified (mutator call, item / attribute
+      store, in-place operator), or the object leaves the reach of the analysis to somebody who shares it with every
+      later caller (the memoised function is itself an entry point or has no caller in the package, an entry point
+      returns it, it is kept in an attribute / container / global, or yielded).  Undecided: the function is referenced
+      other than as the callee of a resolved call, or the object is passed to a callee that cannot be resolved.
+      Discharged: the object stays inside the functions that call the factory and they only read it / call
+      non-mutator methods on it (for a method of an external-library object that is the module's stated assumption,
+      the same one a module-level `Lark` parser is used under).
 * R7  (a published view is final): 1 (the `MappingProxyType(..)` constructions found by the provenance walk of R2/R3 plus
       every one written in a method of the configuration class; mutator calls, item stores/deletes, in-place operators on
       the wrapped mapping; resolved package callees and the parameter the mapping is bound to) + 3 (def-use: the local
@@ -696,7 +707,12 @@ def run(ctx):
         "so the class of the mapping behind every view proxy is located (constructor reached through locals, helpers, call "
         "sites, attribute writes) and no hook of the read protocol it or its package bases define may modify the mapping; "
         "library mappings are judged by a table (dict/OrderedDict/Counter/UserDict pure, defaultdict with a factory stores on "
-        "a missing key) - otherwise a look-up changes len/keys/items of the cached view and what later operations produce."
+        "a missing key) - otherwise a look-up changes len/keys/items of the cached view and what later operations produce. "
+        "Shared objects (R6): no mutation reaches an object built at module or class level; the result of a memoised function "
+        "(lru_cache/cache) is such an object built on first use - a scalar result is fine, any other result is followed from "
+        "every call of the function through the same may-alias analysis: no user may modify it, and it may not be handed to "
+        "the callers of an entry point of the package or kept in an attribute / container (everybody who got it there "
+        "would share one object with every later identical call)."
     )
     rep.not_decided = ["result equality of every operation before/after (follows from R1-R4 for the step-list channel)", "other channels such as RNG state",
                        "R7: a reference to the wrapped mapping that is retained by a callee or a container before the publication (only "
@@ -705,13 +721,19 @@ def run(ctx):
                        "R8: whether a cache key determines (rather than merely involves) each input of the cached value; whether equal "
                        "conditions on a non-boolean input at look-up and store pin its value; caches addressed through computed "
                        "attribute names (getattr/setattr helpers: judged by R5) or filled and read in different functions",
+                       "R6: whether a method outside the mutator table, called on a shared (module-level or memoised) object of an "
+                       "external-library class, changes state of that object that a later call can observe (assumed not to); a shared "
+                       "object captured by a nested function or lambda; whether a memoised function's result depends on anything but "
+                       "its arguments (argument identity vs. equality, state of a file-like argument)",
                        "R9: read hooks of the *values* stored in a view (only the mapping itself is judged); a read hook that keeps state "
                        "in an attribute of the mapping (undecided); mapping classes from outside the package other than the tabulated ones"]
     rep.trusted_base = ["CPython ast", "mutator / fresh-copy tables in csverif/alias.py", "call resolution by construction/annotation",
-                        "baseline vocabulary csverif/baseline_names.json (R8: which functions are public entry points)",
+                        "baseline vocabulary csverif/baseline_names.json (R8, R6 memoised results: which functions are public entry points)",
                         "R9: types.MappingProxyType forwards exactly the read protocol of the wrapped mapping; the reads of dict, "
                         "OrderedDict, Counter and UserDict do not modify them; defaultdict.__missing__ stores factory() under the missing key"]
-    rep.assumptions = ["objects handed to external libraries are not mutated by them", "tuples/bytes/str/int elements are immutable"]
+    rep.assumptions = ["objects handed to external libraries are not mutated by them", "tuples/bytes/str/int elements are immutable",
+                       "a method of an external-library object whose name is not in the mutator table leaves the state of its receiver "
+                       "that later calls can observe unchanged (module-level objects such as the lark parser; R6: confined memoised objects)"]
     al = _FlowAlias(ctx, make_source(ctx)).run()
     # count the reads of the store we analysed
     reads = 0
@@ -773,6 +795,110 @@ def _holds_mutable(v: ast.AST) -> bool:
     return False
 
 
+_MEMO_DECOS = {"lru_cache", "cache", "memoize", "memoized"}
+_PER_INSTANCE_MEMO = {"cached_property"}
+
+
+def _scalar_result(v: ast.AST) -> bool:
+    """The (inlined) return expression evidently denotes a value that cannot be modified."""
+    return isinstance(v, (ast.Constant, ast.JoinedStr, ast.Compare)) \
+        or (isinstance(v, ast.Call) and dotted(v.func) in ("bytes", "str", "int", "bool", "float", "frozenset", "len")) \
+        or (isinstance(v, ast.Call) and isinstance(v.func, ast.Attribute)
+            and v.func.attr in ("decode", "encode", "hex", "join", "format", "strip", "lower", "upper", "digest", "hexdigest"))
+
+
+def _shared_result_uses(ctx, g, callers: Dict[str, int]):
+    """Where the one object that the memoised function g hands to all of its callers goes.  The calls of g are the sources
+    of the may-alias fixpoint of R1/R6 (locals through reaching definitions, parameters of package callees, returns of
+    package helpers, fields).  Returns (modifications, escapes, uses that cannot be followed, functions with a call of g):
+
+    * modification: a mutator call / item or attribute store / in-place operator on an alias of the object;
+    * escape: the object gets out of the reach of that analysis - g is itself an entry point (a baseline function, or no
+      call of it in the package), an entry point returns it, it is kept in an attribute, in a container, in a global, or
+      yielded.  Whoever receives it there shares it with every later caller;
+    * cannot be followed: g referenced other than as the callee of a resolved call, the object passed to a callee that
+      is not resolved.  Arguments of external-library calls fall under the module's stated assumption."""
+    from csverif.normalise import baseline
+
+    def is_source(f, e):
+        if isinstance(e, ast.Call):
+            cal = ctx.rs.resolve_call(f, e)
+            if cal.kind == "func" and cal.func is not None and cal.func.fq == g.fq:
+                return f"the object cached by {g.fq}()"
+        return None
+
+    def public(h) -> bool:
+        return h.qualname in set((baseline().get(h.module.name) or {}).get("functions", []))
+
+    al = _FlowAlias(ctx, is_source, deep_attrs=True).run()
+    muts = [f"`{src(x.node)[:60]}` in {x.func.fq} ({x.kind} on {x.target})" for x in al.findings()]
+    escapes: List[str] = []
+    unlocated: List[str] = []
+    uses: List[str] = []
+    located: Set[int] = set()
+    for f in ctx.repo.all_funcs():
+        for c in fn_calls(f.node):
+            if is_source(f, c):
+                located.add(id(c.func))
+                uses.append(f.fq)
+    short = g.qualname.split(".")[-1]
+    for m in ctx.repo.modules.values():
+        for n in ast.walk(m.tree):
+            if ((isinstance(n, ast.Name) and n.id == short) or (isinstance(n, ast.Attribute) and n.attr == short)) and id(n) not in located \
+                    and isinstance(n.ctx, ast.Load):
+                unlocated.append(f"{m.name}: `{short}` is referenced other than as the callee of a resolved call (line {getattr(n, 'lineno', '?')})")
+    if public(g):
+        escapes.append(f"{g.fq} is an entry point of the package: every outside caller receives the cached object")
+    elif not uses and not unlocated:
+        escapes.append(f"no call of {g.fq} in the package: it is there for outside callers, who all receive the cached object")
+    for hfq, why in sorted(al.taint_returns.items()):
+        if hfq == g.fq:
+            continue
+        h = ctx.repo.func(hfq)
+        if public(h) or not callers.get(hfq):
+            escapes.append(f"returned to the callers of {hfq}")
+    for (cls, attr), why in sorted(al.taint_fields.items()):
+        escapes.append(f"kept in attribute {cls}.{attr}")
+    for f in ctx.repo.all_funcs():
+        if not al.local.get(f.fq) and f.fq not in uses and not any(k[0] == f.fq for k in al.taint_params):
+            continue
+        glob = {n for st in ast.walk(f.node) if isinstance(st, (ast.Global, ast.Nonlocal)) for n in st.names}
+        for n in body_walk(f.node):
+            if isinstance(n, (ast.Yield, ast.YieldFrom)) and n.value is not None and al.tainted(f, n.value):
+                escapes.append(f"yielded by {f.fq}")
+            elif isinstance(n, (ast.List, ast.Tuple, ast.Set)) and isinstance(n.ctx if hasattr(n, "ctx") else ast.Load(), ast.Load) \
+                    and any(al.tainted(f, x) for x in n.elts):
+                escapes.append(f"put in a container in {f.fq}: `{src(n)[:40]}`")
+            elif isinstance(n, ast.Dict) and any(x is not None and al.tainted(f, x) for x in list(n.keys) + list(n.values)):
+                escapes.append(f"put in a container in {f.fq}: `{src(n)[:40]}`")
+            elif isinstance(n, (ast.Assign, ast.AnnAssign, ast.AugAssign)) and getattr(n, "value", None) is not None and al.tainted(f, n.value):
+                for t in (n.targets if isinstance(n, ast.Assign) else [n.target]):
+                    for tt in ast.walk(t):
+                        if isinstance(tt, (ast.Subscript, ast.Attribute)) and isinstance(tt.ctx, ast.Store):
+                            escapes.append(f"stored in `{src(tt)[:40]}` in {f.fq}")
+                        elif isinstance(tt, ast.Name) and tt.id in glob:
+                            escapes.append(f"bound to the global `{tt.id}` in {f.fq}")
+            elif isinstance(n, ast.Call):
+                args = [a.value if isinstance(a, ast.Starred) else a for a in n.args] + [k.value for k in n.keywords]
+                hit = [a for a in args if al.tainted(f, a)]
+                if not hit:
+                    continue
+                if isinstance(n.func, ast.Attribute) and n.func.attr in MUTATORS:
+                    escapes.append(f"put in a container in {f.fq}: `{src(n)[:40]}`")
+                    continue
+                cal = ctx.rs.resolve_call(f, n)
+                if cal.kind in ("func", "class") or dotted(n.func) in _KNOWN_PURE:
+                    continue  # followed into the callee by the fixpoint / builtin that neither keeps nor changes its argument
+                if cal.kind == "external" or (cal.kind == "builtin-method"):
+                    continue  # rep.assumptions: objects handed to external libraries are not mutated by them
+                unlocated.append(f"passed to a callee that is not resolved in {f.fq}: `{src(n)[:40]}`")
+    return muts, sorted(set(escapes)), sorted(set(unlocated)), uses
+
+
+_KNOWN_PURE = {"len", "isinstance", "id", "hash", "type", "repr", "str", "bool", "print", "iter", "list", "tuple", "sorted", "dict", "set",
+               "frozenset", "enumerate", "zip", "reversed", "any", "all", "sum", "min", "max", "callable", "getattr", "hasattr"}
+
+
 def r6(ctx):
     """No function mutates an object that lives at module or class level: such an object is shared by every
     configuration, decoder and call, so writing to it makes results depend on what was done before."""
@@ -822,23 +948,51 @@ def r6(ctx):
     for x in finds:
         ctx.ob("R6", "ALIAS", x.func, f"{x.kind} on {x.target}", False,
                f"`{src(x.node)[:70]}` mutates an object shared at module/class level: {x.target} <- {x.why}", x.node)
-    # memoisation makes every caller share one result object: allowed only for results that cannot be mutated
+    # memoisation makes every caller share one result object - a lazily built module-level object.  Results that cannot be
+    # mutated are fine; any other result is followed to its users exactly like the module-level objects above.
     memo = 0
+    callers: Optional[Dict[str, int]] = None
     for f in ctx.repo.all_funcs():
-        decs = [dotted(d.func if isinstance(d, ast.Call) else d) or "" for d in getattr(f.node, "decorator_list", [])]
-        if not any(d.split(".")[-1] in ("lru_cache", "cache", "cached_property", "memoize", "memoized") for d in decs):
+        decs = {d.split(".")[-1] for d in _decorators(f)}
+        if not decs & (_MEMO_DECOS | _PER_INSTANCE_MEMO):
             continue
         memo += 1
         from csverif.q import inline
         bad = []
         for r in returns_of(f):
             v = inline(f.node, r.value) if r.value is not None else ast.Constant(value=None)
-            imm = isinstance(v, (ast.Constant, ast.JoinedStr, ast.Compare)) or (isinstance(v, ast.Call) and dotted(v.func) in ("bytes", "str", "int", "bool", "float", "frozenset", "len")) \
-                or (isinstance(v, ast.Call) and isinstance(v.func, ast.Attribute) and v.func.attr in ("decode", "encode", "hex", "join", "format", "strip", "lower", "upper", "digest", "hexdigest"))
-            if not imm:
+            if not _scalar_result(v):
                 bad.append(src(r.value)[:50])
-        ctx.ob("R6", "ALIAS", f, "memoised result is immutable", not bad,
-               "cached results are scalars" if not bad else f"results shared between callers through the cache may be mutable: {bad} (a later identical call sees earlier callers' modifications)", f.node)
+        text = "memoised result is immutable"
+        if not bad:
+            ctx.ob("R6", "ALIAS", f, text, True, "cached results are scalars", f.node)
+            continue
+        if not decs & _MEMO_DECOS:  # cached_property: the object lives in the instance, which is handed to every user of it
+            ctx.ob("R6", "ALIAS", f, text, False, f"results shared between callers through the cache may be mutable: {bad} "
+                   "(a later identical call sees earlier callers' modifications)", f.node)
+            continue
+        if callers is None:
+            callers = {}
+            for h in ctx.repo.all_funcs():
+                for c in fn_calls(h.node):
+                    cal = ctx.rs.resolve_call(h, c)
+                    tgt = cal.func if cal.kind == "func" else ctx.rs.class_init(cal.fq) if cal.kind == "class" else None
+                    if tgt is not None and tgt.fq != h.fq:
+                        callers[tgt.fq] = callers.get(tgt.fq, 0) + 1
+        muts, escapes, unlocated, uses = _shared_result_uses(ctx, f, callers)
+        if muts:
+            ctx.ob("R6", "ALIAS", f, text, False, f"the cached object ({bad}) is shared by every caller and a user of it modifies it: "
+                   + "; ".join(muts[:4]) + " (a later identical call sees the modification)", f.node)
+        elif escapes:
+            ctx.ob("R6", "ALIAS", f, text, False, f"results shared between callers through the cache may be mutable: {bad}; the one cached object "
+                   "leaves the functions that use it - " + "; ".join(escapes[:4]) + " (a later identical call sees earlier callers' modifications)", f.node)
+        elif unlocated:
+            ctx.undecided("R6", "ALIAS", f, text, f"the cached object ({bad}) is shared by every caller and not every use of it can be followed: "
+                          + "; ".join(unlocated[:4]), f.node)
+        else:
+            ctx.ob("R6", "ALIAS", f, text, True, f"the cached object ({bad}) is shared like a module-level object; it stays inside its {len(uses)} "
+                   f"use site(s) ({', '.join(sorted(set(uses))[:4])}): no user modifies it (mutator call, item/attribute store, in-place operator), stores "
+                   "it, puts it in a container, returns it to an entry point of the package or yields it", f.node)
     ctx.rep.counts["memoised_functions"] = memo
     ctx.ob("R6", "ALIAS", "package", "no writer of module/class-level objects", not finds,
            f"{len(shared_mod)} module-level and {len(shared_cls)} class-level mutable objects; {len(finds)} mutation sites reach one")
